@@ -639,6 +639,11 @@ func applyFault(sc *Scenario, class string, r *Rng, shape int) (errLike string) 
 			// the texture is a real one, but the line runs with a parameter folder of its own whose tables do not list it
 			// (every other line of the batch uses the shipped tables, which do)
 			sc.ReducedTablesWithout = sc.Soil.Horizons[hi].Texture
+			// ... both tables, or (every second seed) only the capillary-rise table: the two tables of a folder need not list the
+			// same classes, and the texture of the last horizon is looked up in both
+			if (sc.Seed+uint64(shape))%2 == 1 {
+				sc.ReducedTablesOnly = "PARCAP.TRU"
+			}
 			return strings.TrimSpace(sc.Soil.Horizons[hi].Texture)
 		}
 		sc.Soil.Horizons[hi].Texture = "QQ9"
